@@ -32,6 +32,10 @@ func buildOverlay(verifDir string) (map[string][]byte, map[string]string, error)
 	if err != nil {
 		return nil, nil, err
 	}
+	lib, err := os.ReadFile(filepath.Join(verifDir, "harness/common/lib.go"))
+	if err != nil {
+		return nil, nil, err
+	}
 	for key, dir := range pkgDirs {
 		hd := filepath.Join(verifDir, "harness", key)
 		ents, err := os.ReadDir(hd)
@@ -56,6 +60,9 @@ func buildOverlay(verifDir string) (map[string][]byte, map[string]string, error)
 			virt := filepath.Join(repoDir, dir, "zz_verif_intrinsics.go")
 			ov[virt] = []byte(strings.Replace(string(intr), "package PKGNAME", "package "+pkgNames[key], 1))
 			real[virt] = "intrinsics:" + pkgNames[key]
+			virt = filepath.Join(repoDir, dir, "zz_verif_lib.go")
+			ov[virt] = []byte(strings.Replace(string(lib), "package PKGNAME", "package "+pkgNames[key], 1))
+			real[virt] = "intrinsics:lib_" + pkgNames[key]
 		}
 	}
 	return ov, real, nil
